@@ -1,7 +1,7 @@
 """Property -> rule list, with the text that goes into the evidence."""
 import importlib
 
-RULE_MODULES = ["su", "w", "xn", "gv", "r", "lmt", "k"]
+RULE_MODULES = ["su", "w", "xn", "gv", "r", "lmt", "k", "b"]
 
 COMMON_ASSUME = [
     "clang 14's parse, constant evaluation and CFG of each unit are faithful to the C semantics",
@@ -68,6 +68,7 @@ PROPS = {
               "line command (S1,S2,S4).",
               "equality of texts along arbitrary undo/redo walks (argued by induction on the log "
               "in DESIGN.md, not mechanised); mark restoration."),
+    "C05": _p(["B1", "B2", "B3", "B4", "B5", "B6", "B9", "B10", "B11", "P1"], "wip.", "wip."),
     "C06": _p(["X1", "X2", "X3", "X4", "U1"],
               "all 14 ex_region call sites test the result and the fail edge reaches only failing "
               "returns with no effect on buffer, registers, marks or current line (address 0 "
